@@ -123,6 +123,47 @@ def run(facts, rep, tier):
     overflow(F, rep, fns)
     slicetok(F, rep)
     sibling(F, rep, fns)
+    indexmap(F, rep)
+
+
+INDEX_KERNELS = (
+    # function, position of the index argument, position of the length argument (None: taken from the container), kind
+    ("incan_stdlib::collections::list_get", 2, None, "access"),
+    ("incan_stdlib::collections::list_get_mut", 2, None, "access"),
+    ("incan_core::strings::normalize_index", 2, 1, "option"),
+)
+
+
+def indexmap(F, rep):
+    """INDEXMAP — the index-normalisation kernels map EVERY index to what Python's definition says, decided over the
+    whole (idx, len) plane by relational abstract interpretation (rules/idxeval.py): idx < -len and idx >= len are out
+    of range; -len <= idx < 0 selects element idx + len; 0 <= idx < len selects element idx. A leaf is reported only
+    when the engine can state the region and the wrong outcome exactly; paths through operations it has no transfer
+    function for are counted as undecided and never reported."""
+    import idxeval
+    for name, ia, la, kind in INDEX_KERNELS:
+        f = F.fn(name)
+        if not rep.anchor("INDEXMAP", name, f):
+            continue
+        rep.functions.add(f.path)
+        short = name.split("::")[-1]
+        n, viol, undec = idxeval.check_kernel(F, f, ia, la, kind)
+        rep.oblige("INDEXMAP", short, not viol, sample={"rule": "INDEXMAP", "kernel": name, "leaf_regions": n,
+                                                        "undecided": undec, "violations": viol[:3]})
+        seen = set()
+        for v in viol:
+            key = "INDEXMAP|%s|%s" % (short, v["region"])
+            if key in seen:
+                continue
+            seen.add(key)
+            w = v.get("witness") or {}
+            rep.add(Finding("INDEXMAP", key,
+                            "%s: for %s the kernel yields %s, Python's definition says %s (e.g. idx=%s on a "
+                            "container of length %s)" % (short, v["region"], v["got"], v["expected"], w.get("idx"),
+                                                         w.get("len")), file=f.file, line=f.line, fn=f.path))
+        if undec:
+            rep.notes.append("INDEXMAP %s: %d of %d leaf regions undecided (operation outside the engine's "
+                             "transfer functions)" % (short, undec, n))
 
 
 # ---------------------------------------------------------------------------------------------------------------
